@@ -680,6 +680,11 @@ def construct(ev: Ev, cref: ClassRef, n: ast.Call) -> Val:
 			except EngineError:
 				pass
 		return ExcVal(None, cname=name, args=args)
+	# Enum classes are modelled by their values: Enum(value) is the value
+	cmod = source.load(cref.module)
+	ccls = cmod.classes.get(name)
+	if ccls is not None and any(ast.unparse(b) in ('Enum', 'IntEnum', 'enum.Enum') for b in ccls.bases) and len(n.args) == 1:
+		return ev.eval(n.args[0])
 	# record classes
 	for rn, rec in REG.records.items():
 		if rec.source and rec.source[1] == name and rec.source[0] == cref.module:
@@ -890,6 +895,14 @@ def bind_params(ev: Ev, fs: source.FuncSrc, args: list[Val], kwargs: dict[str, V
 
 
 def call_function(ev: Ev, fs: source.FuncSrc, args: list[Val], kwargs: dict[str, Val], recv: Val | None, recv_name: str | None, node: ast.AST | None, want_self: bool = False) -> Val:
+	ev.arg_names = {}  # type: ignore[attr-defined]
+	if isinstance(node, ast.Call):
+		pnames = [a.arg for a in fs.node.args.posonlyargs + fs.node.args.args]
+		if recv is not None and fs.kind in ('method', 'classmethod', 'property'):
+			pnames = pnames[1:]
+		for pn_, an in zip(pnames, node.args):
+			if isinstance(an, ast.Name):
+				ev.arg_names[pn_] = an.id  # type: ignore[attr-defined]
 	c = None
 	if ev.fn.dyn:
 		c = REG.contracts.get((fs.file, f'{fs.qualname}@{ev.fn.dyn}'))
@@ -964,10 +977,21 @@ def modular_call(ev: Ev, fs: source.FuncSrc, c: Contract, args: list[Val], kwarg
 				terms.append(rty.get(old_self.term, f))
 		new_self = Val(rty, rty.mk(*terms))
 		post_env[sp] = new_self
+	# other record-typed parameters passed by reference: havoc what `modifies` allows and write the new value back to the caller's variable
+	other_new: dict[str, Val] = {}
 	for m in c.modifies:
 		if sp and (m == sp or m.startswith(sp + '.')):
 			continue
-		raise EngineError(f'modifies {m}: only fields of the receiver are supported')
+		pn = m.split('.')[0]
+		if pn not in env or not isinstance(env[pn].ty, TRec):
+			raise EngineError(f'modifies {m}: not a record-typed parameter')
+		prty = env[pn].ty
+		assert isinstance(prty, TRec)
+		cur = other_new.get(pn, env[pn])
+		fl = set(prty.fnames()) if m == pn else {m[len(pn) + 1:]}
+		other_new[pn] = Val(prty, prty.mk(*[z3.Const(fresh_name(f'{pn}_{f}'), prty.fty(f).sort()) if f in fl else prty.get(cur.term, f) for f in prty.fnames()]))
+	for pn, nv in other_new.items():
+		post_env[pn] = nv
 	rty2 = ev.eng.ty(c.types.get('return') or fs.node.returns, callee) if (c.types.get('return') or fs.node.returns is not None) else NONE
 	if fs.node.returns is not None and ast.unparse(fs.node.returns) == 'Self' and sp and 'return' not in c.types and env[sp].ty is not None:
 		rty2 = env[sp].ty
@@ -985,6 +1009,13 @@ def modular_call(ev: Ev, fs: source.FuncSrc, c: Contract, args: list[Val], kwarg
 			ev.st.env[recv_name] = new_self
 		elif not want_self:
 			raise EngineError(f'mutating method {fs.qualname} called on a non-variable receiver')
+	for pn, nv in other_new.items():
+		cname = getattr(ev, 'arg_names', {}).get(pn)
+		if cname is None:
+			raise EngineError(f'{fs.qualname} modifies its parameter {pn}: the argument must be a variable')
+		if ev.guards:
+			raise EngineError('mutating call under a guard')
+		ev.st.env[cname] = nv
 	if want_self:
 		return post_env[sp] if sp else result
 	return result
